@@ -483,8 +483,16 @@ func (vc *VC) applyContract(fr *Frame, st *State, con *Contract, callee *ssa.Fun
 			vc.havocAll(st)
 		}
 	} else {
+		// every target names a place of the state at the call (not of the state after the targets before it
+		// have been havocked: "modifies p.f, *p.f" means the old pointee)
+		var tgts []*modTgt
 		for _, m := range con.Modifies {
-			vc.havocTarget(env, st, m, con)
+			tgts = append(tgts, vc.resolveTarget(env, m, con))
+		}
+		for _, t := range tgts {
+			if t != nil {
+				vc.applyHavoc(st, *t)
+			}
 		}
 	}
 	if !(con.HasMod == false && !con.opt("pure")) {
@@ -569,21 +577,30 @@ func resultNames(sig *types.Signature) []string {
 //	*p       the whole object p points to
 //	s[*]     all elements of the backing array of slice s
 //	heap(T)  every object of type T (component), written heap(pkg.T)
-func (vc *VC) havocTarget(env *SpecEnv, st *State, m *SExpr, con *Contract) {
+func (vc *VC) resolveTarget(env *SpecEnv, m *SExpr, con *Contract) (res *modTgt) {
 	defer func() {
 		if r := recover(); r != nil {
 			if se, ok := r.(specErr); ok {
 				vc.errorf("%s:%d: modifies %s: %s", shortPath(con.File), con.Line, m, se.msg)
+				res = nil
 				return
 			}
 			panic(r)
 		}
 	}()
 	tgt := vc.modTarget(env, m)
+	return &tgt
+}
+
+func (vc *VC) applyHavoc(st *State, tgt modTgt) {
 	switch tgt.kind {
 	case "place":
 		t := vc.declFresh("mod", vc.sortOf(tgt.place.Typ))
 		vc.assumeWF(st, t, tgt.place.Typ)
+		if tgt.place.Kind == BPtr && tgt.place.Ref.T != nil && tgt.place.Ref.S != "0" {
+			// "*p" with p == nil names nothing: the slot at the nil reference keeps its value
+			t = vc.define("mod", tIte(tEq(tgt.place.Ref, mk("0", sortRef)), vc.loadPlace(st, tgt.place), t))
+		}
 		vc.storePlace(st, tgt.place, t)
 	case "arr":
 		comp := vc.tgtArrComp(tgt)
